@@ -21,6 +21,7 @@ import Mathlib.Analysis.SpecialFunctions.Trigonometric.InverseDeriv
 import Mathlib.Analysis.SpecialFunctions.ImproperIntegrals
 import Mathlib.Analysis.SpecialFunctions.OrdinaryHypergeometric
 import Mathlib.RingTheory.Polynomial.Pochhammer
+import Mathlib.Algebra.Order.Round
 namespace GSV.Lemmas.CovFn
 open GSV GSV.Transc GSV.Model.CovFn MeasureTheory Set Filter Topology Polynomial
 
@@ -382,5 +383,34 @@ theorem hyp2f1HalfNegNat_eq (n : ℕ) (x : ℝ) :
     have : (ascPochhammer ℝ k).eval (-(n:ℝ)) = 0 := by
       rw [ascPochhammer_eval_eq_zero_iff]; exact ⟨n, hk', by simp⟩
     simp [this]
+
+
+/-! ### `tools/special.py`: reading of the dispatch at `ℝ` -/
+
+/-- at `ℝ` the nearest integer is Mathlib's `round` (ties up; `np.around` ties to even — a tie is never inside an
+    `np.isclose` band, so the dispatch is the same) -/
+noncomputable instance instHasRoundReal : HasRound ℝ := ⟨fun s => round s⟩
+
+@[simp] theorem around_real (s : ℝ) : (HasRound.around s : ℤ) = round s := rfl
+
+theorem iscloseTo_iff (a b : ℝ) : iscloseTo a b = true ↔ |a - b| ≤ 1e-8 + 1e-5 * |b| := by
+  simp [iscloseTo]
+
+theorem iscloseTo_false_iff (a b : ℝ) : iscloseTo a b = false ↔ ¬ |a - b| ≤ 1e-8 + 1e-5 * |b| := by
+  rw [← iscloseTo_iff]; simp
+
+theorem round_eq_of_abs_sub_lt {s : ℝ} {m : ℤ} (h : |s - m| < 1 / 2) : round s = m := by
+  rw [round_eq_iff]
+  have := abs_lt.mp h
+  constructor <;> linarith [this.1, this.2]
+
+/-- value of an affine form: the fold is a sum over the terms -/
+theorem Aff.eval_eq (E : ℝ → ℝ → ℝ) (c : ℝ) (ts : List (ℝ × ℝ × ℝ)) :
+    Aff.eval E ⟨c, ts⟩ = c + (ts.map fun t => t.1 * E t.2.1 t.2.2).sum := by
+  unfold Aff.eval
+  simp only
+  induction ts generalizing c with
+  | nil => simp
+  | cons t ts ih => simp only [List.foldl_cons, List.map_cons, List.sum_cons]; rw [ih]; ring
 
 end GSV.Lemmas.CovFn
